@@ -18,9 +18,15 @@ type decCall struct {
 	Pan  bool   `json:"panic"`
 }
 
+type lenner interface{ Len() int }
+
 func runDecSeq(id int, in []byte, ops []string) {
 	rd := bytes.NewReader(in)
-	d := verifapi.NewCborDecoder(rd)
+	calls := decCalls(verifapi.NewCborDecoder(rd), rd, ops)
+	emit(map[string]interface{}{"case": id, "in": ints(in), "calls": calls})
+}
+
+func decCalls(d *verifapi.CborDecoder, rd lenner, ops []string) []decCall {
 	calls := []decCall{}
 	for _, op := range ops {
 		c := decCall{Op: op, A: u64to(0), S: []int{}}
@@ -57,7 +63,7 @@ func runDecSeq(id int, in []byte, ops []string) {
 		c.Rest = rd.Len()
 		calls = append(calls, c)
 	}
-	emit(map[string]interface{}{"case": id, "in": ints(in), "calls": calls})
+	return calls
 }
 
 // cbordec-run: stdin lines {"in":[...],"ops":[...]} (TLC behaviours)
@@ -83,8 +89,16 @@ func cbordecGen(args []string) error {
 	n, _ := strconv.Atoi(args[0])
 	big := len(args) > 1 && args[1] == "big"
 	r := rand.New(rand.NewSource(seed()))
-	opsAll := []string{"uint", "arr", "map", "bytes", "text", "byte"}
 	for id := 1; id <= n; id++ {
+		in, ops := genDecCase(r, big)
+		runDecSeq(id, in, ops)
+	}
+	return nil
+}
+
+func genDecCase(r *rand.Rand, big bool) ([]byte, []string) {
+	opsAll := []string{"uint", "arr", "map", "bytes", "text", "byte"}
+	{
 		var in []byte
 		var want []string
 		for j := 0; j <= r.Intn(3); j++ {
@@ -154,9 +168,8 @@ func cbordecGen(args []string) error {
 				ops = append(ops, opsAll[r.Intn(6)])
 			}
 		}
-		runDecSeq(id, in, ops)
+		return in, ops
 	}
-	return nil
 }
 
 func min(a, b int) int {
